@@ -48,7 +48,7 @@ CLAIMED = {
             "the model fields and an independent preprocessing reference",
             "Generated-input search over X/Y of controlled conditioning, 1..4 responses, all 49 scaling pairs, nlv up to rank: orthogonal "
             "scores/weights, t_k = X_{k-1} w_k, residual orthogonality, score re-projection, LV-major layout of recalculated_y / "
-            "recalc_residuals, PLSYPredictor / PLSYPredictorAllLV. A fifth of the cases are replicated two-level factorial designs with integer / exactly linear responses (X'Y covariance exhausted before rank(X)). Exploration of the counted cases only.",
+            "recalc_residuals, PLSYPredictor / PLSYPredictorAllLV. A fifth of the cases are replicated two-level factorial designs with integer / exactly linear responses (X^T Y covariance exhausted before rank(X)). Exploration of the counted cases only.",
             "Trusted: oracle preprocessing in oracle.hpp; orthogonality tolerance derived from the measured conditioning of each LV.",
             "DESIGN.md section 5, C03"),
     "C04": ('property-based testing (rapidcheck, forked ASan/UBSan children): differential against Householder least squares in long double, RSS/R2 monotonicity, coefficient-form vs score-form predictions, metamorphic relation y -> c*y+d',
@@ -100,7 +100,7 @@ CLAIMED = {
             'Trusted: system SQLite; the list of persisted fields is taken from the Write* functions.',
             "DESIGN.md section 5, C16"),
     "C18": ('property-based testing (rapidcheck, forked children) on exactly representable degenerate data with a deterministic iteration ceiling (hook H3) as the non-termination oracle; identities on the components up to the numerical rank',
-            'Generated integer/dyadic matrices of exact rank 0..min(shape), duplicated rows, constant columns/blocks/responses, more components than the rank, k-means with duplicate points, one-group cross-validation, simplex on constant / unbounded objectives: every call returns below the iteration ceiling, defined components are finite and satisfy the regular identities, variance beyond the rank is 0 and never NaN. PLS blocks with one constant and one varying response; the first latent variable must be non-null and maximise w'(X'Y Y'X)w whenever X'Y is not null; CPCA block variances must not be NaN. Exploration of the counted cases only.',
+            'Generated integer/dyadic matrices of exact rank 0..min(shape), duplicated rows, constant columns/blocks/responses, more components than the rank, k-means with duplicate points, one-group cross-validation, simplex on constant / unbounded objectives: every call returns below the iteration ceiling, defined components are finite and satisfy the regular identities, variance beyond the rank is 0 and never NaN. PLS blocks with one constant and one varying response; the first latent variable must be non-null and maximise w^T(X^T Y Y^T X)w whenever X^T Y is not null; CPCA block variances must not be NaN. Exploration of the counted cases only.',
             "Trusted: 'bounded' means below 200000 NIPALS iterations / 5000 k-means++ passes (two orders above the slowest genuine case observed); oracle SVD for the numerical rank.",
             "DESIGN.md section 5, C18"),
     "C20": ("Hypothesis (python3-vt) differential between the repository's Python package and the same calls made from a C helper compiled against the current headers; live-object field reads through ctypes _fields_ vs the C view; compiled sizeof/offsetof table of the 10 mirrored structures",
